@@ -82,8 +82,29 @@ func runC16(raw json.RawMessage, w *Writer) {
 		if res == "ok" && err != nil {
 			res = "err"
 		}
+		// the same input on a packet that has decoded something before, and on one the application filled in itself
+		usedRes, usedOut := "ok", []byte(nil)
+		r2, _ := guard(func() {
+			used := &codecs.OpusPacket{}
+			_, _ = used.Unmarshal([]byte{7, 8, 9})
+			o1, e1 := used.Unmarshal(input)
+			built := &codecs.OpusPacket{Payload: []byte{4, 5, 6}}
+			o2, e2 := built.Unmarshal(input)
+			if (e1 == nil) != (e2 == nil) || !bytes.Equal(o1, o2) {
+				usedRes = "differ"
+				return
+			}
+			usedOut = o1
+			if e1 != nil {
+				usedRes = "err"
+			}
+		})
+		if r2 != "ok" {
+			usedRes = "panic"
+		}
 		e := ev("depack")
 		e["res"], e["out"], e["head"], e["tail"], e["diag"] = res, ints(out), head, tail, msg
+		e["used_res"], e["used_out"] = usedRes, ints(usedOut)
 		e["heads"], e["tails"] = heads, tails
 		w.Emit(e)
 		return
